@@ -49,6 +49,10 @@ func init() {
 		Variant{ID: "c19-r6-mysql-sep", Prop: "C19", File: "replication/mysql56_gtid.go",
 			Old: "return fmt.Sprintf(\"%s:%d\", m.Server, m.Sequence)", New: "return fmt.Sprintf(\"%s-%d\", m.Server, m.Sequence)",
 			Expect: "C19-R6 separator@Mysql56GTID"},
+		Variant{ID: "c19-r7-contains-forward-walk", Prop: "C19", File: "replication/mariadb_gtid.go",
+			Old: "\tfor _, gtid := range mdbOther {\n\t\tif !gtidSet.ContainsGTID(gtid) {\n\t\t\treturn false\n\t\t}\n\t}\n\treturn true",
+			New: "\ti := 0\n\tfor _, gtid := range mdbOther {\n\t\tfor i < len(gtidSet) && gtidSet[i].Domain != gtid.Domain {\n\t\t\ti++\n\t\t}\n\t\tif i == len(gtidSet) || gtidSet[i].Sequence < gtid.Sequence {\n\t\t\treturn false\n\t\t}\n\t}\n\treturn true",
+			Expect: "C19-R7 full-scan@Contains"},
 	)
 }
 
@@ -57,6 +61,7 @@ func runC19(a *A) {
 	c19R3(a)
 	c19R4(a)
 	c19R6(a)
+	c19R7(a)
 }
 
 // implementers of an interface among the named types of the replication package.
@@ -623,4 +628,106 @@ func partIndex(v ssa.Value, split *ssa.Call, seen map[ssa.Value]bool) (int64, bo
 		}
 	}
 	return 0, false
+}
+
+
+// R7: a MariaDB set is an unordered list of one position per domain, so every lookup in it must be able to see every
+// element: (a) no order-assuming search (sort.Search*, sort.Find, slices.BinarySearch*) in its methods or the closures and
+// in-package helpers they use; (b) every loop that walks the receiver starts at its first element each time the loop is
+// entered - an index carried over from an enclosing loop (a forward-only "merge" walk) skips elements of an unsorted set.
+func c19R7(a *A) {
+	const rule = "C19-R7"
+	w := a.W
+	ms := methodsOf(w, w.Repl, "MariadbGTIDSet")
+	if !a.need(len(ms) >= 5, rule, "methods of MariadbGTIDSet") {
+		return
+	}
+	n := 0
+	for _, m := range ms {
+		switch m.Name() {
+		case "Contains", "ContainsGTID", "AddGTID":
+		default:
+			continue
+		}
+		fns := []*ssa.Function{m}
+		for _, af := range m.AnonFuncs {
+			fns = append(fns, af)
+		}
+		instrs(m, func(in ssa.Instruction) {
+			if c, ok := in.(*ssa.Call); ok {
+				if cal := c.Common().StaticCallee(); cal != nil && cal.Pkg == w.Repl && cal.Blocks != nil && cal.Signature.Recv() == nil {
+					fns = append(fns, cal)
+				}
+			}
+		})
+		var bad []string
+		pos := w.pos(m.Pos())
+		for _, f := range fns {
+			a.touch(f)
+			instrs(f, func(in ssa.Instruction) {
+				c, ok := in.(*ssa.Call)
+				if !ok {
+					return
+				}
+				cal := c.Common().StaticCallee()
+				if cal == nil || cal.Pkg == nil {
+					return
+				}
+				path, name := cal.Pkg.Pkg.Path(), cal.Name()
+				if (path == "sort" && (strings.HasPrefix(name, "Search") || name == "Find")) || (path == "slices" && strings.HasPrefix(name, "BinarySearch")) {
+					bad = append(bad, "order-assuming search "+path+"."+name)
+					pos = w.posOf(c)
+				}
+			})
+			// loops indexing a MariadbGTIDSet value
+			for _, b := range f.Blocks {
+				if !isLoopHeader(b) {
+					continue
+				}
+				for _, in := range b.Instrs {
+					phi, ok := in.(*ssa.Phi)
+					if !ok {
+						break
+					}
+					if !isIntegerType(phi.Type()) {
+						continue
+					}
+					// does this phi index a set?
+					indexes := false
+					for _, ref := range *phi.Referrers() {
+						if ia, ok := ref.(*ssa.IndexAddr); ok && typeIs(ia.X.Type(), replPath, "MariadbGTIDSet") {
+							indexes = true
+						}
+						// range loops index through phi+1
+						if bo, ok := ref.(*ssa.BinOp); ok && bo.Op == token.ADD {
+							for _, r2 := range *bo.Referrers() {
+								if ia, ok := r2.(*ssa.IndexAddr); ok && typeIs(ia.X.Type(), replPath, "MariadbGTIDSet") {
+									indexes = true
+								}
+							}
+						}
+					}
+					if !indexes {
+						continue
+					}
+					for i, p := range b.Preds {
+						if b.Dominates(p) {
+							continue
+						}
+						k, isK := constInt(phi.Edges[i])
+						if !isK || (k != 0 && k != -1) {
+							bad = append(bad, fmt.Sprintf("the walk over the set in %s starts from %s, not from its first element", f.Name(), describe(phi.Edges[i])))
+							pos = w.posOf(lastInstr(b))
+						}
+					}
+				}
+			}
+		}
+		n++
+		a.check(len(bad) == 0, rule, "full-scan@"+m.Name(), pos, "every lookup can see every element of the (unordered) set",
+			fmt.Sprintf("%s does not look at every element of the set (%s): MariaDB sets are not kept sorted by domain, so a position of a known domain can be missed - containment is denied, or a second position for one domain is added", m.Name(), strings.Join(bad, "; ")))
+	}
+	if n < 3 {
+		a.undecided(rule, "full-scan@methods", "-", "found %d of Contains / ContainsGTID / AddGTID on MariadbGTIDSet", n)
+	}
 }
